@@ -159,7 +159,7 @@ PROPS["C14"] = {
 }
 
 PROPS["C15"] = {
-    "test": "TestC15", "level": "fault_enumeration", "registered": True, "engine": "sim",
+    "test": "TestC15", "level": "fault_enumeration", "registered": True, "engine": "sim", "race_pass": {"env": {"VERIF_C15_ONLY": "burst"}, "shards": 3}, "race_is_violation": True, "race_only_matching": r"ErrorPageMiddleware|error_page_middleware\.go",
     "shards_quick": 8, "shards_thorough": 16, "timeout": 900,
     "technique": "fault enumeration at every point of the target connection in virtual time; raw client parser as well-formedness oracle; exact virtual instants for 502/504",
     "level_text": "Sequences of 1-6 faults on one service - dial refused, close at once, close inside the status line, garbage, close inside the header block (each immediately or after a delay), silence, header block stalled past the target timeout, answer 300ms before / 300ms after / within one step of the timeout, and after the header block: short Content-Length body, close inside a chunk, close between chunks - with a healthy request after each, in all four buffering combinations and with no / 502-only / 504-only / both custom pages. Oracle: for early faults a syntactically complete response (raw parser, declared length = actual) with 502 at the failure instant or 504 at exactly sent+target-timeout, rendered from the right page; for late faults the client's parse must fail (never complete-looking); afterwards the service answers, a pause with a 30s drain returns in 0 virtual time, and the bubble drains.",
